@@ -227,6 +227,9 @@ func equals(t types.Type, x, y value) bool {
 	case complex128:
 		return x == y.(complex128)
 	case string:
+		if ys := y.(string); x != ys && (hasDec(x) || hasDec(ys)) {
+			unsupported("comparison of symbolic decimal strings inside a composite value")
+		}
 		return x == y.(string)
 	case *value:
 		return x == y.(*value)
@@ -288,6 +291,7 @@ func hash(outer, t types.Type, x value) int {
 	case complex128:
 		return int(real(x))
 	case string:
+		guardDec(x, "use as a map key")
 		return hashString(x)
 	case *value:
 		return int(uintptr(unsafe.Pointer(x)))
